@@ -108,6 +108,54 @@ def builtin_sampler_faults(chk: Check, rng):
                     chk.fail(f"built-in line-up {[x[0] for x in cfg['lineup']]}: calibrate() after a failure at model call {k} ({b0} batches completed) raised {type(e).__name__}: {str(e)[:80]}", case)
 
 
+def pso_bookkeeping(chk: Check, rng):
+    """the swarm's history bookkeeping on the real class against Samplers.Pso.run: which calls start the swarm, which run `_update_best`,
+    on how many losses and reading which rows — over call sequences with failed batches (same history length handed again, 0 included),
+    own batches recorded, and other samplers' batches in between"""
+    from vp.core import lean_run
+    from black_it.samplers.particle_swarm import ParticleSwarmSampler
+    from black_it.search_space import SearchSpace
+    reqs, impl, cases = [], [], []
+    for ci in range(40 if chk.tier == "quick" else 600):
+        bs, d = rng.randint(1, 4), rng.randint(1, 3)
+        space = SearchSpace([[0.0] * d, [1.0] * d], [0.01] * d, verbose=False)
+        s = ParticleSwarmSampler(batch_size=bs, random_state=rng.randrange(10 ** 6), global_minimum_across_samplers=rng.random() < 0.5)
+        acts = []
+        o_setup, o_update = s._set_up, s._update_best
+
+        def su(dims, _o=o_setup, _a=acts):
+            _a.append("S"); return _o(dims)
+
+        def ub(pts, ls, _o=o_update, _a=acts, _s=s):
+            _a.append(f"U:{len(ls)}:{_s._previous_batch_index_start}:{_s._previous_batch_index_start + _s.batch_size}"); return _o(pts, ls)
+        s._set_up, s._update_best = su, ub
+        g = np.random.default_rng(rng.randrange(10 ** 6))
+        pts = np.round(g.random((80, d)), 2); losses = g.random(80)
+        n, ns, failed_first = (0 if ci % 2 == 0 else rng.randint(1, 6)), [], 0
+        err = None
+        for call in range(rng.randint(2, 8)):
+            ns.append(n)
+            try:
+                out = s.sample(space, pts[:n].copy(), losses[:n].copy())
+            except Exception as e:  # noqa: BLE001
+                err = f"call {call} with a history of {n} rows raised {type(e).__name__}: {str(e)[:80]}"
+                break
+            r = rng.random()
+            if r < (0.6 if call == 0 and ci % 4 == 0 else 0.3):
+                pass                                     # the batch failed in the model or the loss: nothing recorded
+            else:
+                n += bs + (rng.randint(1, 5) if rng.random() < 0.4 else 0)      # recorded, possibly followed by other samplers' batches
+        chk.case(["pso", bs, ns], len(set(ns)) < len(ns), {"batch_size": bs, "history_lengths_handed": ns})
+        chk.count("pso_bookkeeping:" + ("first_batch_failed_on_empty_history" if len(ns) > 1 and ns[0] == 0 and ns[1] == 0 else "other"))
+        if err:
+            chk.fail(f"ParticleSwarmSampler (batch_size {bs}) handed history lengths {ns}: {err}", {"case": {"kind": "pso", "bs": bs, "ns": ns}})
+            continue
+        reqs.append(f"smp.pso {bs} {len(ns)} " + " ".join(map(str, ns))); impl.append(" ".join(acts)); cases.append((bs, ns))
+    for (bs, ns), a, m in zip(cases, impl, lean_run(reqs) if reqs else []):
+        if a != m.strip():
+            chk.disagree("ParticleSwarmSampler history bookkeeping != Samplers.Pso.run", {"batch_size": bs, "history_lengths": ns, "impl": a, "model": m})
+
+
 def run(chk: Check):
     rng = chk.rng
     chk.rule = ("for each base scenario (round-robin and RL scheduler, 2-6 batches, with and without saving folder) an exception is injected at EVERY "
@@ -192,6 +240,7 @@ def run(chk: Check):
                              {"scenario": scn_json(base), "fault": list(fault), "op_index": k,
                               "fields": ch.diff_fields(a, b) if k is not None and k >= 0 else None, "impl": a[:500], "model": b[:500]})
     builtin_sampler_faults(chk, rng)
+    pso_bookkeeping(chk, rng)
     chk.extra["exhaustive"] = True
     chk.extra["fault_index_spaces"] = exhaustive_spaces
 
